@@ -11,7 +11,7 @@ CHECKS = {
          "short-read pattern and algorithm tuple. The model is tied to /repo by replaying the real function with a controlled readinto "
          "and recording hash objects; recorded digests of real datasets are compared with independent one-shot digests."
          " Overlapping calls: six threads digest different multi-chunk files at the same time; every result must equal the one-shot digest (the model treats a call as a pure function of the file's bytes - shared state between calls would falsify that)."
-         " C16Src.lean re-checks on the statement order extracted from the current source that _get_hash_function returns a freshly constructed object in every branch and stores nothing, and that hash_checksums creates, feeds and then reads the objects; every algorithm is also requested twice and three times in one call.",
+         " C16Src.lean re-checks on the statement order extracted from the current source that _get_hash_function returns a freshly constructed object in every branch and stores nothing, and that hash_checksums creates, feeds and then reads the objects; every algorithm is also requested twice and three times in one call; four threads with a filler each close shards at overlapping times and every recorded digest is recomputed.",
     note="Digest algorithms (hashlib, xxhash) and CPython file objects are modelled, not verified; streaming law is an explicit hypothesis.",
     ref="DESIGN.md §5 C16"),
  "C10": dict(
@@ -74,7 +74,7 @@ CHECKS = {
          "C14_batches_bounded, C14_shuffle_buffer_productive. Measured pulled-yielded of the real code equals the monitor's value on the same trace; LazyPool read-ahead "
          "is checked to be independent of the input length; shard opens for k examples of a repeating stream are bounded independently of the dataset size."
          ' Rust reader (SedpackProps/C14Rust.lean): C14_rust_total_read_ahead - in every reachable state of M-PMAP, also after drop, the items taken from the input are at most the results returned plus the worker count; the cargo harness measures exactly that on the real parallel_map (instrumented input iterator: pulled for k results, and by the time the iterator is dropped) and the recorded channel operations must contain no next() after drop.'
-         ' C14Src.lean re-checks on the statement order extracted from the current source that the four stage generators contain no comparison (they never look at the elements they move), pull once per iteration and yield before they overwrite a slot; streams of None / falsy / unhashable / array elements are run through the three stages.',
+         ' C14Src.lean re-checks on the statement order extracted from the current source that the four stage generators contain no comparison (they never look at the elements they move), pull once per iteration and yield before they overwrite a slot; streams of None / falsy / unhashable / array elements are run through the three stages; sized containers as pool input, a buffer size of None, a slow head-of-line shard.',
     note="Memory inside TensorFlow / the Rust extension is out of scope; the shard-path shuffle buffer holds path strings only.",
     ref="DESIGN.md §5 C14"),
  "C19": dict(
@@ -136,7 +136,7 @@ CHECKS = {
     text="C17_validator_contains, C17_rejects_outside, C17_list_and_subdir_validators, C17_list_name, C17_reads_inside, C17_absolute_counterexample. M-PATH's parser/join/validators are compared with "
          "pathlib, FileInfo, ShardsList, ShardListInfo and the filler guard on hundreds (thorough: thousands) of grammar strings; datasets whose shard / child-list / self paths point outside "
          "the root (absolute, relative, via ..) are opened, checked, iterated and written: nothing outside may be opened or created."
-         " C17Src.lean re-checks on the statement order extracted from the current source that the filler context only stores its arguments after its two guards (nothing transforms the sub-directory between check and use) and that every shard location goes through the validating FileInfo constructor; sub-directories holding $VAR / ${VAR} / ~ are written with the variables set to values that lead outside.",
+         " C17Src.lean re-checks on the statement order extracted from the current source that the filler context only stores its arguments after its two guards (nothing transforms the sub-directory between check and use) and that every shard location goes through the validating FileInfo constructor; sub-directories holding $VAR / ${VAR} / ~ are written with the variables set to values that lead outside; hostile strings are validated in a loop while another thread commits sessions; iterators started before a chdir are consumed after it.",
     note="No symlinks inside the dataset directory; pathlib's parser is modelled (and compared). Native readers' opens are seen through their results (a recognisable example id) and the audit hook.",
     ref="DESIGN.md §5 C17"),
  "C20": dict(
@@ -144,7 +144,7 @@ CHECKS = {
     text="C20_gate, C20_same_or_older_loads, C20_defaults_roundtrip, C20_relocation_invariant. Version triples around the running version (incl. multi-digit components) are stamped into real datasets and "
          "the verdict compared with Ver.loads and with numeric tuple comparison; random ShardsList documents go through model_dump_json(exclude_defaults)/validate and the model's dump/load; descriptions with "
          "unicode and nested JSON metadata at dataset/attribute/shard level are reopened and compared; copies/moves (nested, unicode, blank, cwd-relative) are opened, checked, iterated and written to."
-         " C20Src.lean re-checks on the statement order extracted from the current source that DatasetBase.__init__ resolves the root after and outside the try around expanduser and stores the resolved path last.",
+         " C20Src.lean re-checks on the statement order extracted from the current source that DatasetBase.__init__ resolves the root after and outside the try around expanduser and stores the resolved path last. The create / reopen / check / continue cycle is repeated in a child process whose default text encoding is ASCII (found D16), and a dataset and its copy are opened and checked by two threads at once.",
     note="pydantic-core's JSON text layer and semver's parser are externals (partial: exercised, not proved).",
     ref="DESIGN.md §5 C20"),
  "C15": dict(
